@@ -11,6 +11,7 @@ import P0f.Model.Http
 import P0f.Model.DbParse
 import P0f.Model.Api
 import P0f.Model.Effects
+import P0f.Model.ImpExplain
 /-
   Line-protocol driver: one tab-separated op per input line, one answer line per op.
   Every op is answered by the *model* definitions that the theorems in `P0f/Props` are about.
@@ -187,6 +188,59 @@ def histRun (db : Db) : List String → List String → List String
     let (db', a) := histStep db s
     histRun db' ss (a :: acc)
 
+/-! ### impersonation: explain a run of the real code and judge its output -/
+
+def parseOptInt (s : String) : Option Int := if s == "-" || s == "" then none else some (parseInt s)
+
+def impExplain (f : Array String) : String :=
+  match parseTcpSig (parseHexText f[1]!) with
+  | none => "ERR field"
+  | some s =>
+    let bver := parseNat f[2]!
+    let braw := rawOf bver (parseHex f[3]!)
+    let hints := (f[4]!.splitOn ",").toArray ++ Array.replicate 4 "-"
+    let base := baseOfRaw braw (parseOptInt hints[0]!) (parseOptInt hints[1]!) (parseOptInt hints[2]!) (parseOptInt hints[3]!)
+    let hops := parseInt f[5]!
+    let mtu := parseNat f[6]!
+    let uptime := parseOptInt f[7]!
+    let maxDist := parseInt f[8]!
+    let over := parseNat f[9]!
+    let obytes := parseHex f[10]!
+    match (if over == 4 then decodeV4 obytes else decodeV6 obytes) with
+    | none => "out-illframed"
+    | some po =>
+      let k := pktSigOfPkt po 0
+      let verdict := s!"{mtStr (tcpMatchPkt s k maxDist)} {(s.ttl : Int) - (k.ttl : Int)}"
+      let oraw := rawOf over obytes
+      let ch := choicesOfOut s oraw
+      let expl :=
+        match impTcp s base hops mtu uptime ch with
+        | .error .valueError => "model=ERR_value"
+        | .error .fieldError => "model=ERR_field"
+        | .ok mo =>
+          let mb := mo.toBytes
+          -- bytes beyond the IP datagram (link-layer padding carried along with a Raw payload) are not part of the packet
+          let dlen := if over == 4 then u16 obytes 2 else 40 + u16 obytes 4
+          let ab := zeroChecksums over (obytes.take dlen)
+          match firstDiff mb ab 0 with
+          | some i => s!"DIFF@{i}(model={mb.getD i 999},actual={ab.getD i 999},tcpoff={if over == 4 then (obytes.getD 0 0 % 16) * 4 else 40})"
+          | none => if choicesOk s base uptime ch then "ok" else "RANGE"
+      s!"{verdict} | explain={expl}"
+
+/-- what the model does with inputs on which the real code raised: does the model raise too -/
+def impModelErr (f : Array String) : String :=
+  match parseTcpSig (parseHexText f[1]!) with
+  | none => "ERR field"
+  | some s =>
+    let bver := parseNat f[2]!
+    let braw := rawOf bver (parseHex f[3]!)
+    let base := baseOfRaw braw none none none none
+    let ch : Choices := { id := 1, fl := 1, ecn := 1, seq := 1, ack := 1, urp := 1, winMul := 1, payload := [65], opt := s.layout.map fun _ => (100, 1) }
+    match impTcp s base (parseInt f[5]!) (parseNat f[6]!) none ch with
+    | .error .valueError => "EXC ValueError"
+    | .error .fieldError => "ERR field"
+    | .ok _ => "returns"
+
 def handle (f : Array String) : String :=
   match f[0]! with
   | "match" =>
@@ -335,6 +389,8 @@ def handle (f : Array String) : String :=
         else if st.startsWith "I" || st.startsWith "K" then .impTcp 0 else .fpTcp 0
       let w' := wStep w c
       if (w'.pkts.map (·.opts.length)) == (w.pkts.map (·.opts.length)) then "same" else "opts")
+  | "impexplain" => impExplain f
+  | "imperr" => impModelErr f
   | "histq" =>
     " ; ".intercalate (histRun Db.empty ((f.toList.drop 1).filter (· != "")) [])
   | "hist" =>
